@@ -138,10 +138,20 @@ def run(tier, res, force_search=False):
     if force_search or not lean_ok or mismatches:
         reps *= 3
     all_names = list(probes.window_debiasers(31, 1))
-    scenarios = ["unequal", "equal-shifted", "reconf-step", "reconf-length", "reconf-both"]
+    extra_names = list(probes.window_debiasers_extra(31, 1))
+    scenarios = ["unequal", "equal-shifted", "reconf-step", "reconf-length", "reconf-both", "partial-times"]
     for rep in range(reps):
-        for name in all_names:
-            for scen in scenarios:
+        # tas settings of all eight debiasers x every scenario; further deterministic configurations (pr: multiplicative scaling,
+        # relative SDM, the censored-gamma model fitted by an optimiser; other distributions; other ISIMIP variables) x two
+        # scenarios each; partial-year reference records (a window of the target day holds no reference value at all)
+        plan = [(name, scen) for name in all_names for scen in scenarios]
+        if tier == "quick" and not (force_search or not lean_ok or mismatches):
+            plan += [(name, "unequal" if (i + rep + C.seed()) % 2 else rng.choice(scenarios[1:])) for i, name in enumerate(extra_names)]
+        else:
+            plan += [(name, scen) for name in extra_names for scen in ("unequal", rng.choice(scenarios[1:]))]
+        plan += [("LinearScaling", "partial-year"), ("DeltaChange", "partial-year"), ("LinearScaling-pr", "partial-year")]
+        for name, scen in plan:
+            for _once in (0,):
                 nprs = np.random.RandomState(rng.randint(0, 2**31 - 1))
                 y0 = rng.randint(1960, 2080)
                 leap = rng.random() < 0.5
@@ -157,7 +167,29 @@ def run(tier, res, force_search=False):
                     dO = probes.dates_from(datetime.date(y0 - 20, 1, 1), 365 * 2 + rng.randint(0, 40))
                     dH = probes.dates_from(datetime.date(y0 - 24, 1, 1), 365 * 2 + rng.randint(0, 40))
                 dF = probes.dates_from(datetime.date(y0, 1, 1) + datetime.timedelta(days=rng.choice([0, rng.randint(0, 364)])), 365 * 2 + rng.randint(0, 40))
-                cheap = name in ("LinearScaling", "DeltaChange", "QuantileMapping")
+                omitted = ()
+                if scen == "partial-times":
+                    # some time arrays omitted: the library infers a daily calendar from 1950-01-01 for those (and only those)
+                    omitted = rng.choice([("obs",), ("cm_hist",), ("obs", "cm_hist"), ("cm_future",), ("obs", "cm_future")])
+                    inferred = datetime.date(1950, 1, 1)
+                    if "obs" in omitted:
+                        dO = probes.dates_from(inferred, dO.size)
+                    if "cm_hist" in omitted:
+                        dH = probes.dates_from(inferred, dH.size)
+                    if "cm_future" in omitted:
+                        dF = probes.dates_from(inferred, dF.size)
+                if scen == "partial-year":
+                    # the reference records cover only part of the year (e.g. March..October of several years)
+                    m0, m1 = rng.choice([(3, 10), (4, 9), (5, 11), (2, 8)])
+                    if name.startswith("DeltaChange"):  # DeltaChange corrects obs: its reference records are the two model series
+                        dH = dH[np.array([m0 <= d.month <= m1 for d in dH])]
+                        if rng.random() < 0.5:
+                            dF = dF[np.array([m0 <= d.month <= m1 for d in dF])]
+                    else:
+                        dO = dO[np.array([m0 <= d.month <= m1 for d in dO])]
+                        if rng.random() < 0.5:
+                            dH = dH[np.array([m0 <= d.month <= m1 for d in dH])]
+                cheap = name in ("LinearScaling", "DeltaChange", "QuantileMapping", "LinearScaling-pr", "DeltaChange-pr")
                 S = rng.choice([1, 5, 15, 31] if cheap else [5, 15, 31])
                 L = S + rng.choice([0, 4, 16, 30])
                 if scen == "equal-shifted":
@@ -166,9 +198,20 @@ def run(tier, res, force_search=False):
                 if scen == "reconf-step":
                     S = rng.choice([1, 5] if cheap else [5])
                     L = S + rng.choice([16, 30])  # room for a larger step at construction
+                if name not in all_names and not name.startswith(("LinearScaling", "DeltaChange")):
+                    L = max(L, 31)  # precipitation / non-normal fits: enough (wet) values in every window to fit a distribution
                 Ln, Sn = L + (L % 2 == 0), S + (S % 2 == 0)
                 k_near = Ln // 2 + Sn // 2
-                o, h, f = probes.tas_like(nprs, dO, 283, 3), probes.tas_like(nprs, dH, 285, 4), probes.tas_like(nprs, dF, 287, 4)
+                if name in all_names:
+                    mk, data_kind = (lambda LL, SS: probes.window_debiasers(LL, SS)[name]()), "tas"
+                else:
+                    mk, data_kind = (lambda LL, SS: probes.window_debiasers_extra(LL, SS)[name][0]()), probes.window_debiasers_extra(31, 1)[name][1]
+                if data_kind == "tas":
+                    o, h, f = probes.tas_like(nprs, dO, 283, 3), probes.tas_like(nprs, dH, 285, 4), probes.tas_like(nprs, dF, 287, 4)
+                elif data_kind == "pr":
+                    o, h, f = probes.pr_like(nprs, dO, 0.5, 4.0), probes.pr_like(nprs, dH, 0.6, 3.0), probes.pr_like(nprs, dF, 0.55, 3.5)
+                else:  # all-wet precipitation: every value above every censoring threshold
+                    o, h, f = probes.pr_like(nprs, dO, 1.1, 4.0), probes.pr_like(nprs, dH, 1.1, 3.0), probes.pr_like(nprs, dF, 1.1, 3.5)
                 # the neighbourhood is defined by the CALENDAR day of year, computed independently of the library
                 doyO, doyH, doyF = probes.indep_doy(dO), probes.indep_doy(dH), probes.indep_doy(dF)
                 enc = probes.pick_kind(rng)  # the same days in one of the time encodings the library accepts
@@ -176,24 +219,34 @@ def run(tier, res, force_search=False):
                 dO, dH, dF = probes.present(rawO, enc), probes.present(rawH, enc), probes.present(rawF, enc)
                 for dd, shown in ((rawO, dO), (rawH, dH), (rawF, dF)):
                     probes.check_calendar(dd, problems, what="locality/calendar", presented=shown)
-                corrected_doy = doyO if name == "DeltaChange" else doyF
+                is_dc = name.startswith("DeltaChange")
+                corrected_doy = doyO if is_dc else doyF
                 cand = [i for i, d in enumerate(corrected_doy) if d in (1, 2, 365, 366, 59, 60)]
                 ti = rng.choice(cand) if cand and rng.random() < 0.5 else rng.randrange(corrected_doy.size)
+                if scen == "partial-year":
+                    # a target day whose neighbourhood holds no value of the partial reference record
+                    part_doy = doyH if is_dc else doyO
+                    cand = [i for i, d in enumerate(corrected_doy) if not near_mask(Ln // 2 + Sn // 2, int(d), part_doy).any()]
+                    if not cand:
+                        continue
+                    ti = rng.choice(cand)
                 t = int(corrected_doy[ti])
                 kind = rng.choice(["x3", "+1e6", "nan"])
                 case = {"what": "locality/" + name, "scenario": scen, "L": L, "S": S, "target_index": ti, "target_doy": t, "perturbation": kind,
                         "startO": str(rawO[0]), "startH": str(rawH[0]), "startF": str(rawF[0]), "nO": int(dO.size), "nH": int(dH.size), "nF": int(dF.size),
-                        "leap": leap, "seed": C.seed(), "time_encoding": enc}
+                        "leap": leap, "seed": C.seed(), "time_encoding": enc, "time_arrays_omitted": list(omitted)}
                 if scen.startswith("reconf"):
                     L0 = L if scen == "reconf-step" else L + rng.choice([10, 30])
                     # a stale (larger) step is what would widen the neighbourhood: prefer a larger step at construction
                     S0 = S if scen == "reconf-length" else rng.choice([x for x in (5, 15, 31) if S < x <= L0] or [x for x in (1, 5, 15) if x != S and x <= L0] or [S])
                     case.update({"constructed_with": [L0, S0]})
 
+                tO, tH, tF = (None if "obs" in omitted else dO), (None if "cm_hist" in omitted else dH), (None if "cm_future" in omitted else dF)
+
                 def run_deb(oo, hh, ff):
                     if not scen.startswith("reconf"):
-                        return probes.window_debiasers(L, S)[name]().apply_location(oo, hh, ff, dO, dH, dF)
-                    d = probes.window_debiasers(L0, S0)[name]()
+                        return mk(L, S).apply_location(oo, hh, ff, tO, tH, tF)
+                    d = mk(L0, S0)
                     d.running_window_length, d.running_window_step_length = L, S
                     return d.apply(oo[:, None, None], hh[:, None, None], ff[:, None, None], progressbar=False,
                                    time_obs=dO, time_cm_hist=dH, time_cm_future=dF)[:, 0, 0]
@@ -201,8 +254,12 @@ def run(tier, res, force_search=False):
                 def perturb(x, doys):
                     far = ~near_mask(k_near, t, doys)
                     y = x.copy()
-                    if kind == "x3":
+                    if data_kind == "pr_wet" and kind == "nan":
+                        y[far] = y[far] * 7  # (kept wet and finite)
+                    elif kind == "x3":
                         y[far] = y[far] * 3
+                    elif kind == "x1.01":
+                        y[far] = y[far] * 1.01
                     elif kind == "+1e6":
                         y[far] = y[far] + 1e6
                     else:
@@ -210,32 +267,42 @@ def run(tier, res, force_search=False):
                     return y, int(far.sum())
 
                 a = b = None
-                for attempt in range(2):
-                    o2, n1 = perturb(o, doyO)
-                    h2, n2 = perturb(h, doyH)
-                    f2, n3 = perturb(f, doyF)
-                    with warnings.catch_warnings():
-                        warnings.simplefilter("ignore")
+                with warnings.catch_warnings():
+                    warnings.simplefilter("ignore")
+                    try:
+                        a = run_deb(o, h, f)
+                    except Exception as ex:  # noqa: BLE001
+                        if scen != "partial-year" and name in all_names:
+                            # (an empty calibration window, or too few wet values, making a fit raise is not a locality statement)
+                            problems.append((f"{name}: {type(ex).__name__} on the unperturbed input: {str(ex)[:100]}", case))
+                        a = None
+                        res.extra["locality_skipped_unperturbed_run_raises"] = res.extra.get("locality_skipped_unperturbed_run_raises", 0) + 1
+                    # far-away data that makes an UNRELATED window's fit raise (NaN, an absurd magnitude) is not a locality
+                    # statement: fall back to milder perturbations, and skip (counted) if even those raise
+                    for attempt_kind in ([kind] + [k2 for k2 in ("+1e6", "x3", "x1.01") if k2 != kind]) if a is not None else []:
+                        kind = case["perturbation"] = attempt_kind
+                        o2, n1 = perturb(o, doyO)
+                        h2, n2 = perturb(h, doyH)
+                        f2, n3 = perturb(f, doyF)
                         try:
-                            a = run_deb(o, h, f)
                             b = run_deb(o2, h2, f2)
                             break
-                        except Exception as ex:  # noqa: BLE001
-                            if kind == "nan":
-                                # NaN far away can make an unrelated window's fit raise: not a locality statement; use a finite perturbation
-                                kind = case["perturbation"] = "+1e6"
-                                a = b = None
-                                continue
-                            problems.append((f"{name}: {type(ex).__name__}: {str(ex)[:100]}", case))
-                            a = b = None
-                            break
+                        except Exception:  # noqa: BLE001
+                            b = None
+                    if a is not None and b is None:
+                        res.extra["locality_skipped_perturbed_run_raises"] = res.extra.get("locality_skipped_perturbed_run_raises", 0) + 1
                 if a is None or b is None:
                     continue
                 res.count(("loc", name, scen, L, S, t, kind), n1 + n2 + n3 > 0, sample=case if len(res.cov["samples"]) < 6 else None)
-                if not (a[ti] == b[ti] and np.isfinite(a[ti])):
+                if scen == "partial-year":
+                    # nothing of the partial record is near the target: whatever the value is (NaN for an empty sample), it must
+                    # not depend on the far-away data
+                    if not (a[ti] == b[ti] or (np.isnan(a[ti]) and np.isnan(b[ti]))):
+                        problems.append((f"{name} [{scen}]: value on day {t} changed ({a[ti]!r} -> {b[ti]!r}) although the reference record has no value within L//2+S//2={k_near} days of it and only such far-away data was changed", case))
+                elif not (a[ti] == b[ti] and np.isfinite(a[ti])):
                     problems.append((f"{name} [{scen}]: value on day {t} changed ({a[ti]!r} -> {b[ti]!r}) although only data more than L//2+S//2={k_near} days away was changed", case))
                 # the window really reaches L//2 days: LinearScaling with S = 1 must react to a change at distance exactly L//2
-                if name == "LinearScaling" and Sn == 1 and Ln >= 3:
+                if name == "LinearScaling" and Sn == 1 and Ln >= 3 and scen != "partial-year":
                     at = near_mask(Ln // 2, t, doyH) & ~near_mask(Ln // 2 - 1, t, doyH)
                     if at.any():
                         h3 = h.copy()
